@@ -105,8 +105,21 @@ def error_model_case(ctx, rng, idx):
              'model_output': ybar}
     ctx.case((cname, wrapper, tuple(free), n_t,
               tuple(np.round(np.log10(full), 0))), True, sample=feats)
-    samples = np.asarray(model.sample(full[free], ybar, n_samples=n,
-                                      seed=seed))
+    # the parameters are "an array-like object": an array, or a pandas
+    # Series labelled with the parameter names (a slice of an estimate
+    # table), as the scoring methods take it
+    p_arg = full[free]
+    feats['parameter_container'] = 'array'
+    if rng.random() < 0.4 and len(p_arg):
+        import pandas as pd
+        p_arg = pd.Series(full[free], index=list(model.get_parameter_names()))
+        feats['parameter_container'] = 'series'
+    try:
+        samples = np.asarray(model.sample(p_arg, ybar, n_samples=n,
+                                          seed=seed))
+    except Exception as e:      # noqa
+        ctx.violation_exc('sample_raises', e, {'case': feats}, feats)
+        return
     if samples.shape != (n_t, n):
         ctx.violation('sample_shape', 'sample_shape:' + cname,
                       {'shape': samples.shape, 'expected': (n_t, n)}, feats)
